@@ -18,19 +18,23 @@ ANCHORS = [
     ("pipefunc/map/_load.py", ["load_xarray_dataset", "load_outputs"]),
 ]
 RULE = ("valid map requests of harness/mapgen.py (DAGs of 1..4 structural functions, zip / outer product / ':' "
-        "reductions / internal axes at any position / generators / unmapped functions / tuple outputs, every storage) whose root "
-        "inputs are 1-D or 2-D with distinct values, plus hand-written corner cases; each with load_intermediate on or "
-        "off; both xarray_dataset_from_results and load_xarray_dataset are built from a real run folder; kind 0 compares "
-        "variables, dims, values, coordinates, identical(), and .sel() on every single-source 1-D coordinate value; "
-        "kind 1 is .sel() on zipped coordinates; non-trivial = some coordinate exists; distinct by (specs, shapes, "
-        "load_intermediate, kind)")
+        "reductions / internal axes at any position / mapped functions without any mapped axis / generators / unmapped "
+        "functions / tuple outputs, every storage) whose root inputs are 1-D or 2-D with distinct values; user-level lists "
+        "whose generator MapSpecs are left to pipefunc (auto-generated, functions handed over in a random order); two "
+        "independent sub-pipelines sharing index names; unmapped functions returning ndarrays; hand-written corner cases; "
+        "each with load_intermediate on or off; both xarray_dataset_from_results and load_xarray_dataset are built from a "
+        "real run folder; kind 0 compares variables, dims, values, coordinates, identical(), and .sel() on every "
+        "single-source 1-D coordinate value; kind 1 is .sel() on zipped coordinates; every observation also carries "
+        "[valid, known-finding region] which the model recomputes (valid_req, region_req); non-trivial = some coordinate "
+        "exists; distinct by (specs, shapes, load_intermediate, kind, order)")
 ASSUMPTIONS = [
     "xarray/pandas object construction (xr.DataArray, xr.merge(compat='override'), Dataset.__setitem__, "
     "Dataset.__getitem__ attaching every coordinate whose dims are a subset, pd.MultiIndex.from_arrays becoming an "
     "object array of tuples, .sel() building a PandasIndex on the fly for a 1-D non-index coordinate) is library "
     "behaviour: observed on the real objects, not modelled (the property is partial in that sense)",
     "values of the variables are those of C01's model (Model/MapRun.v, sequential semantics) with structural bodies",
-    "unmapped functions return scalars (as in C01's generator); reprs, dtypes and attrs are never compared",
+    "unmapped functions return scalars or ndarrays (never lists); reprs, dtypes and attrs are never compared",
+    "user-level lists: the auto-generated MapSpecs are those of Model/AutoGen.construct (C01's model of Pipeline.add)",
 ]
 TRUSTED = ["Model/XrLabel.v mirrors trace_dependencies/_trace_dependencies/mapspec_axes/_xarray/_xarray_dataset by hand; "
            "tie = per-run differential execution against real xarray.Dataset objects",
@@ -125,7 +129,8 @@ def _run_request(c):
                     vars_, coords, sels = o1
                     if kind == 1:
                         vars_, coords = [], []
-                    out[kind] = ["ok", True, ident, same, vars_, coords, sels]
+                    # [the request is valid, this observation is classified as a known finding]
+                    out[kind] = ["ok", [True, kind == 1 and len(sels) > 0], ident, same, vars_, coords, sels]
         except Exception as e:  # noqa: BLE001
             out = {0: Err(e), 1: Err(e)}
     _cache[key] = out
